@@ -272,6 +272,10 @@ func c08Boundary(w *core.W, j int) {
 		m.Q = []model.Question{{Name: model.Name{[]byte("q")}, Type: 1, Class: 1}}
 		base := 12 + 3 + 4
 		target := 16384 - delta
+		escOwner := j%2 == 1
+		if escOwner {
+			target += 40 // owners that start up to 40 octets beyond the limit as well
+		}
 		need := target - base - 11 // RDATA octets of the filler TXT (owner is the root)
 		var strs [][]byte
 		for need > 256 {
@@ -283,6 +287,15 @@ func c08Boundary(w *core.W, j int) {
 		g.Pool = nil
 		x := g.Rec(l)
 		x.Owner = model.Name{[]byte("x")}
+		if escOwner {
+			// an owner full of escapes (its text is much longer than its wire form), first used right here
+			// and used again by the records that follow
+			x.Owner = model.Name{[]byte("ho.st"), []byte{0, 1, 2, 3, 4, 5, byte(delta)}, []byte("zo ne\\b"), []byte("invalid")}
+			for k := 0; k < 3; k++ {
+				m.Ns = append(m.Ns, &model.Rec{Owner: x.Owner.Clone(), Type: 1, Class: 1, TTL: 1, L: model.Layouts[1], Vals: []any{[]byte{9, 9, 9, byte(k)}}})
+			}
+			m.Ns = append(m.Ns, &model.Rec{Owner: append(model.Name{[]byte("sub")}, x.Owner...), Type: 1, Class: 1, TTL: 1, L: model.Layouts[1], Vals: []any{[]byte{9, 9, 9, 9}}})
+		}
 		m.An = append(m.An, x)
 		_, refs := x.Rdata()
 		for _, ref := range refs {
